@@ -69,6 +69,45 @@ theorem backends_agree {K : Type} [Field K] (ζ : K × K × K) (N : Mesh)
   rw [slowPath_eq ζ N h1 h2 h3 z1 z2 z3 χd entries m]
   exact fft_path_eq_explicit N h1 h2 h3 (boxChar ζ) (boxChar_periodic ζ N h1 h2 h3 z1 z2 z3) Finv hF χd entries m hm
 
+/-! ## T3' — no hidden state: `R_to_k` depends on the CURRENT configuration only -/
+
+/-- For every history of `set_fft_R_to_k` calls on one `Rvectors` object (grids with any `NK`, `fftlib`, `dK`, and
+    k-lists, in any order), the result of `R_to_k(apply_expdK(X))` after the last call is what that last configuration
+    alone prescribes — nothing of the earlier calls survives (in particular not the `exp(2πi dK·R)` factors of an
+    earlier `dK`, although the k-list branch leaves the stale `self.expdK` in place). -/
+theorem rtok_depends_on_current_config {K : Type} [Field K]
+    (Finv : Mesh → (Vec3 → K) → Vec3 → K) (ζ : Mesh → K × K × K)
+    (hist : List (Cfg K)) (c : Cfg K) (entries : List (Vec3 × K)) :
+    rToK Finv ζ (runCfgs (hist ++ [c])) entries = rToKcfg Finv ζ c entries := by
+  unfold runCfgs
+  rw [List.foldl_append]
+  cases c with
+  | grid N lib χd => cases lib <;> rfl
+  | klist χs => rfl
+
+/-- … and therefore, after ANY history, a grid configuration `(N, fftlib, dK)` returns at every grid point `m` the
+    explicit sum `Σ_R χ_{m/N}(R)·χ_{dK}(R)·X(R)` of the current `dK` (both branches; fft branch under the contract), and
+    a k-list configuration returns the explicit sums of its own k-points. -/
+theorem rtok_after_any_history {K : Type} [Field K]
+    (Finv : Mesh → (Vec3 → K) → Vec3 → K) (ζ : Mesh → K × K × K) (hist : List (Cfg K)) (entries : List (Vec3 × K))
+    (N : Mesh) (h1 : 0 < N.1) (h2 : 0 < N.2.1) (h3 : 0 < N.2.2)
+    (z1 : (ζ N).1 ^ N.1 = 1) (z2 : (ζ N).2.1 ^ N.2.1 = 1) (z3 : (ζ N).2.2 ^ N.2.2 = 1)
+    (hF : IDFTContract N (boxChar (ζ N)) (Finv N)) (lib : Lib) (χd : Vec3 → K) (χs : List (Vec3 → K)) :
+    rToK Finv ζ (runCfgs (hist ++ [Cfg.grid N lib χd])) entries
+        = (gridPoints N).map (fun m => explicitSum (fun R => boxChar (ζ N) m R * χd R) entries) ∧
+    rToK Finv ζ (runCfgs (hist ++ [Cfg.klist χs])) entries = χs.map fun χ => explicitSum χ entries := by
+  constructor
+  · rw [rtok_depends_on_current_config]
+    cases lib
+    · apply List.map_congr_left
+      intro m hm
+      exact fftPath_eq N h1 h2 h3 (boxChar (ζ N)) (boxChar_periodic (ζ N) N h1 h2 h3 z1 z2 z3) (Finv N) hF χd entries m hm
+    · apply List.map_congr_left
+      intro m _
+      exact slowPath_eq (ζ N) N h1 h2 h3 z1 z2 z3 χd entries m
+  · rw [rtok_depends_on_current_config]
+    rfl
+
 /-! ## T4 — Hermiticity -/
 
 /-- T4a.  If `X(-R) = X(R)†` then so does the real-space matrix after `n` applications of `derivative`, for every
